@@ -100,6 +100,13 @@ CLAIMED["C17"] = ("TLC checks C17 on a model of the three read strategies for ev
             "Trusted: TLC, the address-derived pattern as oracle (cross-checked once through /proc/<pid>/mem), the byte comparator; unreadable = unmapped.",
             "TLA+ model checking (TLC) + model-generated replay + trace validation", "DESIGN.md 4/C17")
 
+CLAIMED["C14"] = ("TLC enumerates every abstract ELF (presence/readability of each table and range the reader follows) through the strategy steps of ElfReader; "
+            "the ELF builder concretises each (64/32-bit) and the real BuildId/SoName readers (slice and file) must give the model's outcome and the "
+            "independent reader's value; totality is checked on every header field at boundary values, field pairs/triples, random bytes, the machine's "
+            "ELF files and live mappings (memory vs file).",
+            "Trusted: TLC, the harness's ELF builder and independent reader; random-bytes part is fuzzing judged trivially by TLC; little-endian only.",
+            "TLA+ model checking (TLC) + model-generated replay + structure-aware corruption + trace validation", "DESIGN.md 4/C14")
+
 NOT_YET = {
 }
 
